@@ -4,13 +4,13 @@ From Coq Require Import List String Arith Bool.
 From AhrsModel Require Import Effects.
 From AhrsGen Require Import C19effects.
 Import ListNotations.
-Open Scope string_scope.
+
 
 (* summaries of all callables in call-graph order (computed once) *)
 Definition S : list (option summ) := Eval vm_compute in (summaries generated_programs gtop).
 
 Definition nthd {A} (l : list A) (k : nat) (d : A) := nth k l d.
-Definition name_of (f : nat) : string := nthd names f "?".
+Definition name_of (f : nat) : string := nthd names f "?"%string.
 Definition public (f : nat) : bool := nthd is_public f false.
 Definition exempt (f : nat) : bool := nthd exempt_inplace f false.
 Definition glob_allowed (f : nat) : bool := nthd global_allowed f false.
@@ -28,14 +28,14 @@ Definition exit_map (f : nat) : option amap :=
   end.
 Definition tainted_by (f : nat) : list nat :=
   match exit_map f with
-  | Some a => flat_map (fun '(v, at_) => if existsb (fun l => l <? nthd n_explicit f 0) (get a v) then [at_] else [])
+  | Some a => flat_map (fun '(v, at_) => if existsb (fun l => Nat.leb (nthd n_self f 0) l && Nat.ltb l (nthd n_explicit f 0)) (get a v) then [at_] else [])
                        (nthd attr_exit f [])
   | None => map snd (nthd attr_exit f [])
   end.
-Definition tainted_attrs : list nat := Eval vm_compute in (dedup (flat_map tainted_by (seq 0 (length names)))).
+Definition tainted_attrs : list nat := Eval vm_compute in (dedup (flat_map tainted_by (seq 0 (List.length names)))).
 
 Definition counted (f k : nat) : bool :=
-  (k <? nthd n_explicit f 0) ||
+  Nat.ltb k (nthd n_explicit f 0) ||
   existsb (fun '(p, at_) => Nat.eqb p k && memb at_ tainted_attrs) (nthd attr_params f []).
 
 (* the caller arrays callable f may modify; None: the analysis gave up (treated as "may modify") *)
@@ -43,7 +43,7 @@ Definition mutated (f : nat) : option (list nat) := option_map (fun sm => filter
 Definition is_mutator (f : nat) : bool := match mutated f with Some [] => false | _ => true end.
 Definition reads_global (f : nat) : bool := match summ_of f with Some sm => match s_glob sm with [] => false | _ => true end | None => true end.
 
-Definition all_ids := seq 0 (length names).
+Definition all_ids := seq 0 (List.length names).
 Definition flagged : list string :=
   Eval vm_compute in (map name_of (filter (fun f => public f && negb (exempt f) && is_mutator f) all_ids)).
 Definition mutated_table : list (string * option (list nat)) :=
